@@ -755,6 +755,12 @@ class VHDXInspector(FileInspector):
                     '<QII', entry[16:])
                 self._trace('Meta entry %i specifies offset: %x',
                             i, meta_offset)
+                header = self.region('header')
+                if meta_offset < header.offset + header.length:
+                    # We stream, so we can only follow pointers forward
+                    raise ImageFormatError(
+                        'Metadata region at %x overlaps the header' % (
+                            meta_offset))
                 # NOTE(danms): The meta_len in the region descriptor is the
                 # entire size of the metadata table and data. This can be
                 # very large, so we should only capture the size required
@@ -801,6 +807,11 @@ class VHDXInspector(FileInspector):
                     meta_buffer[entry_offset + 16:entry_offset + 28])
                 item_length = min(item_length,
                                   self.VHDX_METADATA_TABLE_MAX_SIZE)
+                if item_offset < entries_size:
+                    # We stream, so we can only follow pointers forward
+                    raise ImageFormatError(
+                        'Metadata item at %x overlaps the metadata table' % (
+                            item_offset))
                 self.region('metadata').length = len(meta_buffer)
                 self._trace('Found entry at offset %x', item_offset)
                 # Metadata item offset is from the beginning of the metadata
